@@ -16,7 +16,7 @@ Not decided: that two structurally identical float computations round identicall
 establishes; uniform-model views; numeric equality of different float paths.
 """
 from fractions import Fraction
-from vlib import pow2 as pow2mod, facts, sym, rules, effects, anchors
+from vlib import pow2 as pow2mod, facts, sym, rules, effects, anchors, dbm as dbmmod
 
 LQD = 'stream::model::quantize::LeakilyQuantizedDistribution'
 MODEL_TRAITS = ('stream::model::EntropyModel', 'stream::model::EncoderModel', 'stream::model::DecoderModel', 'stream::model::IterableEntropyModel')
@@ -477,6 +477,48 @@ def check_lazy_eager(ctx, F):
                     if sym.contains(t, lambda y: isinstance(y, tuple) and y and y[0] == 'call' and y[1].endswith('wrapping_pow2')):
                         pinned = True
         shapes[name] = (found, pinned)
+    # the bound of the clamp: `min(converted, X - len)` with the same X = 2^PRECISION on both sides
+    def clamp_bases(bodies, parent):
+        out = []
+        caps = {}
+        if parent is not None:
+            _, pp = rules.evaluate(parent)
+            for r in pp or []:
+                terms = ([r.ret] if r.ret is not None else []) + [a for e in r.events if e['kind'] == 'call' for a in e.get('args_val', e['args'])]
+                for t in terms:
+                    for x in sym.subterms(t):
+                        if isinstance(x, tuple) and x and x[0] == 'agg' and isinstance(x[1], tuple) and x[1][0] == 'closure':
+                            caps[x[1][1]] = x[2]
+        for b in bodies:
+            _, paths = rules.evaluate(b)
+            for r in paths or []:
+                terms = ([r.ret] if r.ret is not None else []) + [e['result'] for e in r.events if e['kind'] == 'call']
+                for t in terms:
+                    for x in sym.subterms(rules.inline_pure(F, t)):
+                        if not (isinstance(x, tuple) and x and x[0] == 'call' and str(x[1]).endswith(('Ord::min', 'cmp::min')) and len(x[2]) == 2):
+                            continue
+                        for conv, bound in ((x[2][0], x[2][1]), (x[2][1], x[2][0])):
+                            if not (conv[0] == 'cast' and sym.contains(conv[2], lambda y: isinstance(y, tuple) and y and y[0] == 'bin' and y[1].split('.')[0] == 'Mul')):
+                                continue
+                            bound = effects.strip_uid(bound)
+                            # a captured variable of the closure: look its value up where the closure is built
+                            if bound[0] == 'in' and bound[1][0] == 1 and len(bound[1]) >= 3 and isinstance(bound[1][2], tuple) and bound[1][2][0] == 'f' and b.defpath in caps:
+                                k = int(bound[1][2][1])
+                                if k < len(caps[b.defpath]):
+                                    bound = effects.strip_uid(caps[b.defpath][k])
+                            if bound[0] == 'bin' and bound[1].split('.')[0] == 'Sub' and sym.contains(bound[3], lambda y: isinstance(y, tuple) and y and y[0] == 'len'):
+                                base = effects.rebuild(bound[2], lambda m: sym.mk_bin('Shl', ('k', 'one', 'Probability'), m[2][0]) if (m and m[0] == 'call' and str(m[1]).endswith('wrapping_pow2') and len(m[2]) == 1) else None)
+                                pb = pow2mod.p2(base)
+                                out.append((repr(sorted((k2, str(v[0])) for k2, v in pb.t.items())) if pb is not None else None, sym.show(bound[2])[:60]))
+        return out
+    be = clamp_bases(F.closures_of(eager[0]), eager[0])
+    bl = clamp_bases(enc + [x for x in F.bodies if x.promoted is None and x.self_adt == lazy[0].self_adt and x.dk == 'AssocFn' and x.impl_trait is None and x not in enc], None)
+    pe = {p_ for p_, _ in be if p_ is not None}
+    pl = {p_ for p_, _ in bl if p_ is not None}
+    if pe and pl and pe != pl:
+        ctx.bad('R4', role3, lazy[0].defpath, 'the eager constructor clamps scaled prefix sums to `%s - len` and the lazy model to `%s - len`: for tables that end in (near-)zero weights the two models built from the same probabilities differ in the last symbols' % (be[0][1], bl[0][1]), key=k3 + '/clamp-bound', loc=rules.loc(lazy[0]))
+    elif pe and pl:
+        ctx.ok('R4', role3, lazy[0].defpath, 'both clamp to the same free weight (%s - len)' % be[0][1], key=k3 + '/clamp-bound')
     # the eager path pins the last boundary in its callers (push of wrapping_pow2); accept that
     if shapes['eager'][0] and shapes['lazy'][0] and shapes['eager'][0] != shapes['lazy'][0]:
         ctx.bad('R4', role3, lazy[0].defpath, 'the eager constructor converts prefix sums as %s and the lazy model as %s: near the upper end (where rounding pushes the scaled sum past the free weight) the two produce different tables for the same probabilities' % (sorted(shapes['eager'][0]), sorted(shapes['lazy'][0])), key=k3, loc=rules.loc(lazy[0]))
@@ -528,6 +570,9 @@ def check_cdf_search_extent(ctx, F):
                     want = sym.mk_bin('Sub', sym.mk_len(cdf), ('int', 1))
                     if rng[0] == 'agg' and rng[1][-1] == 'RangeTo' and rng[2][0] == want:
                         verdict = verdict or ('ok', 'cdf[..len - 1]')
+                    elif rng[0] == 'agg' and rng[1][-1] in ('RangeFrom', 'RangeFull'):
+                        # open to the right: the slice ends with the total-mass entry whatever its start
+                        verdict = ('bad', 'cdf[%s..] - a sub-slice that is open to the right, so it ends with the final total-mass entry (0 at full precision; and for a quantile >= 1 << PRECISION the result lies past the last bin, which the unchecked accesses behind the search do not expect)' % (sym.show(rng[2][0])[:20] if rng[2] else ''))
                     else:
                         verdict = verdict if verdict and verdict[0] == 'bad' else ('unres', 'sub-slice %s' % sym.show(rng)[:80])
                 elif not sym.contains(recv, _is_cdf_field):
@@ -604,6 +649,61 @@ def _mod_affine(t, is_state):
             return sym.mk_bin('Add' if n[1].endswith('add') else 'Sub', n[2][0], n[2][1])
         return None
     return sym.affine(effects.rebuild(t, f))
+
+
+def check_nth_agrees_with_size_hint(ctx, F):
+    """An iterator over a symbol table that overrides `nth` (to jump instead of stepping) defines "advance by n" a second time.
+    Whatever the jump does, it may return `None` for `n` only if fewer than `n + 1` items are left - and the number of items
+    left is what the same type's `size_hint().0` reports (consistent with `next()` by the step rule above).  So on every path
+    of `nth` that returns None with the iterator not yet finished, `n >= size_hint().0` is entailed by the path's decisions.
+    (Zero instances on the pinned tree; the positive control is the seeded change r13-C05-mut1.)"""
+    IT = 'core::iter::Iterator'
+    n = 0
+    for b in F.bodies:
+        if b.promoted is not None or b.impl_trait != IT or b.name != 'nth' or b.dk != 'AssocFn' or '::tests::' in b.defpath or not (b.self_adt or '').startswith('stream::model'):
+            continue
+        hints = [x for x in F.bodies if x.promoted is None and x.impl_trait == IT and x.name == 'size_hint' and x.self_adt == b.self_adt and F.ty_s(x.impl_self) == F.ty_s(b.impl_self)]
+        n += 1
+        key = 'R10/nth-agrees-with-size-hint/' + b.defpath
+        role = 'nth(n) returns None only if n >= size_hint().0'
+        ctx.touch(b)
+        if len(hints) != 1:
+            ctx.unresolved('R10', role, b.defpath, 'no size_hint override of the same iterator to compare with', key=key)
+            continue
+        norm1 = lambda t: effects.rebuild(effects.strip_uid(t), lambda m: ('unwrap', m[1]) if (m and m[0] == 'payload' and m[2] == 'Some' and m[3] == '0') else (sym.mk_bin('Add', m[2][0], m[2][1]) if (m and m[0] == 'call' and str(m[1]).endswith('saturating_add') and len(m[2]) == 2) else None))
+        def norm(t):
+            for _ in range(3):
+                t = norm1(t)
+            # `if let Some(x) = self.field` reads the payload through a downcast place, `self.field?` through unwrap: one value
+            return effects.rebuild(t, lambda m: ('unwrap', ('in', m[1][:-2])) if (m and m[0] == 'in' and len(m[1]) > 2 and m[1][-2:] == (('dc', 'Some'), ('f', '0'))) else None)
+        _, hp = rules.evaluate(hints[0])
+        lows = []
+        for r in hp or []:
+            if r.end == 'return' and r.ret is not None and r.ret[0] == 'agg' and r.ret[1] == 'tuple' and len(r.ret[2]) == 2 and r.ret[2][0] != sym.mk_int(0):
+                lows.append(norm(r.ret[2][0]))
+        if len(lows) != 1:
+            ctx.unresolved('R10', role, b.defpath, 'size_hint().0 of the unfinished iterator not identified', key=key)
+            continue
+        L = lows[0]
+        _, paths = rules.evaluate(b)
+        bad = None
+        n_none = 0
+        for r in paths or []:
+            if r.end != 'return' or r.ret is None or not (r.ret[0] == 'agg' and isinstance(r.ret[1], tuple) and r.ret[1][0] == 'adt' and r.ret[1][2] == 'None'):
+                continue
+            n_none += 1
+            preds = [(norm(t), v, x) for t, v, x in r.preds]
+            d = dbmmod.DBM()
+            dbmmod.harvest(d, preds)
+            if not d.entails_le(L, ('arg', 2)):
+                bad = 'a path returns None without having decided n >= %s (what size_hint().0 reports for the same state): the jump gives up although the item at distance n exists - `nth`, `skip` and `step_by` then lose the last symbol(s) of the table that `next()` would still yield' % sym.show(L)[:80]
+        if bad:
+            ctx.bad('R10', role, b.defpath, bad, key=key, loc=rules.loc(b))
+        elif n_none:
+            ctx.ok('R10', role, b.defpath, '%d None-returning path(s), each entails n >= size_hint().0' % n_none, key=key)
+        else:
+            ctx.unresolved('R10', role, b.defpath, 'no path returns None directly', key=key)
+    ctx.extra['nth_overrides'] = n
 
 
 def check_size_hint_steps(ctx, F):
@@ -930,6 +1030,7 @@ def run(ctx):
     check_quantizer_boundaries(ctx, F)
     check_cdf_search_extent(ctx, F)
     check_size_hint_steps(ctx, F)
+    check_nth_agrees_with_size_hint(ctx, F)
     check_conservative_preskip(ctx, F)
     check_uniform_table_extent(ctx, F)
     check_symbol_successor(ctx, F)
